@@ -2521,4 +2521,244 @@ theorem run_ginv (evs : List Ev) (s : St) (hreq : s.cfg.tls = .required) (hg : G
     · exact h1.1 o ho
     · exact h2.1 o ho
 
+/-! ### `bindAvail` / `smAvail` / `csiAvail` are written on the connection that uses them
+
+They are not reset by `handleStart`.  They are read by the bind / resume listeners (`bindAvail`, `smAvail`) and by
+`openSession` (`csiAvail`).  Apart from a SASL2 success carrying `<resumed/>` (an inline-resumed session keeps the features
+of the session it resumes), `openSession` is reached from the idle listener in the step that stores the features, or from one
+of the listeners in `EL`; and `EL` is only entered by a step that writes the fields. -/
+
+/-- listeners from which a session can be opened without a further features element -/
+def EL (l : Listener) : Prop := L3 l ∨ l = .nonSaslFields ∨ l = .nonSaslResult
+
+theorem failAuth_listener (s : St) : (failAuth s).1.listener = .idle := rfl
+
+theorem starttlsHandle_el (s : St) (e : El) (h : ¬ EL s.listener) : ¬ EL (starttlsHandle s e).1.listener := by
+  unfold starttlsHandle
+  split
+  · simp [handleStart, EL, L3]
+  · rw [onSocketDisconnected_listener]; simp [EL, L3]
+  · rw [reject_listener]; exact h
+
+theorem saslHandle_el (s : St) (m : Used) (fr : Bool) (e : El) (h : ¬ EL s.listener) : ¬ EL (saslHandle s m fr e).1.listener := by
+  unfold saslHandle
+  split
+  · split
+    · simp [handleStart, EL, L3]
+    · simp [failAuth_listener, EL, L3]
+  · split
+    · simp [EL, L3]
+    · simp [failAuth_listener, EL, L3]
+  · simp [failAuth_listener, EL, L3]
+  · rw [reject_listener]; exact h
+
+theorem sasl2Handle_el (s : St) (m : Used) (fr : Bool) (e : El) (h : ¬ EL s.listener) : ¬ EL (sasl2Handle s m fr e).1.listener := by
+  unfold sasl2Handle
+  split
+  · split
+    · simp [EL, L3]
+    · simp [failAuth_listener, EL, L3]
+  · split
+    · simp [EL, L3]
+    · simp [failAuth_listener, EL, L3]
+  · simp [failAuth_listener, EL, L3]
+  · exact h
+  · rw [reject_listener]; exact h
+
+/-- what a features element has written when it leaves the client in one of the `EL` listeners -/
+def Wrote (f : Features) (t : St) : Prop :=
+  t.csiAvail = f.csi ∧ (L3 t.listener → t.bindAvail = f.bind ∧ t.smAvail = f.sm)
+
+theorem handleFeatures_el (s : St) (f : Features) (hl : s.listener = .idle) (h : EL (handleFeatures s f).1.listener) :
+    Wrote f (handleFeatures s f).1 := by
+  revert h
+  unfold handleFeatures
+  split
+  · rename_i r hr
+    unfold handleStarttls at hr
+    repeat' split at hr
+    all_goals first
+      | (cases hr; done)
+      | (cases hr; intro h; rw [disconnectFromHost_listener, hl] at h; simp [EL, L3] at h)
+      | (cases hr; intro h; simp [EL, L3] at h)
+  · split
+    · rename_i z _
+      intro h
+      exfalso
+      revert h
+      unfold startSasl2
+      dsimp only
+      split
+      · simp [EL, L3]
+      · rw [disconnectFromHost_listener]; simp [EL, L3]
+    · split
+      · intro h
+        exfalso
+        revert h
+        unfold startSasl
+        split
+        · simp [EL, L3]
+        · rw [disconnectFromHost_listener]; simp [EL, L3]
+      · split
+        · intro _
+          exact ⟨rfl, fun h => by simp [startNonSaslAuth, L3] at h⟩
+        · dsimp only
+          split
+          · intro _; exact ⟨rfl, fun _ => ⟨rfl, rfl⟩⟩
+          · split
+            · intro _; exact ⟨rfl, fun _ => ⟨rfl, rfl⟩⟩
+            · split
+              · intro _; exact ⟨rfl, fun _ => ⟨rfl, rfl⟩⟩
+              · intro h
+                rw [(openSession_spec _).2.2.1.listener] at h
+                simp [hl, EL, L3] at h
+
+/-- **Entering a listener that can open a session writes the availability fields in the same step** — from any state: either
+a features element was received and `csiAvail`, and for the bind / enable / resume listeners also `bindAvail` and `smAvail`,
+hold exactly what it advertised; or a version-less header was received and `csiAvail` is false (XEP-0078 listener). -/
+theorem el_entered_only_by_a_write (s : St) (e : Ev) (hpre : ¬ EL s.listener) (hpost : EL (step s e).1.listener) :
+    (∃ f, e = .recv (.features f) ∧ Wrote f (step s e).1) ∨
+    (∃ i, e = .recv (.header false i) ∧ (step s e).1.listener = .nonSaslFields ∧ (step s e).1.csiAvail = false) := by
+  cases e with
+  | connectToServer => exfalso; revert hpost; simp only [step]; split <;> exact hpre
+  | socketConnected =>
+    exfalso; revert hpost; simp only [step]
+    split
+    · simp [handleStart, EL, L3]
+    · exact hpre
+  | socketError => exact absurd hpost hpre
+  | socketDisconnected =>
+    exfalso; revert hpost; simp only [step]
+    split
+    · rw [onSocketDisconnected_listener]; exact hpre
+    · split <;> exact hpre
+  | sendIq =>
+    exfalso; revert hpost
+    simp only [step, sendIq]
+    have hc := (sendStanza_core s (.iqRequest false)).1.listener
+    split
+    · rw [hc]; exact hpre
+    · show ¬ EL (sendStanza s (.iqRequest false)).1.listener; rw [hc]; exact hpre
+  | recv el =>
+    revert hpost
+    simp only [step]
+    unfold recv
+    split
+    · intro h; exact absurd h hpre
+    · split
+      · rename_i v i
+        unfold handleStream
+        dsimp only
+        split
+        · intro h; exact absurd h hpre
+        · split
+          · rename_i hv
+            split
+            · intro h; rw [disconnectFromHost_listener] at h; exact absurd h hpre
+            · intro _
+              have : v = false := by
+                cases v
+                · rfl
+                · simp at hv
+              subst this
+              exact Or.inr ⟨i, rfl, rfl, rfl⟩
+          · intro h; exact absurd h hpre
+      · split
+        · intro h; exact absurd h hpre
+        · split
+          · intro h; rw [disconnectFromHost_listener] at h; exact absurd h hpre
+          · unfold dispatch
+            split
+            · rename_i hl
+              by_cases hf : ∃ f, el = .features f
+              · obtain ⟨f, rfl⟩ := hf
+                intro h
+                left
+                refine ⟨f, rfl, ?_⟩
+                unfold idleHandle at h ⊢
+                simp only [El.isStanza, Bool.false_eq_true, false_and, if_false, idleHandle'] at h ⊢
+                exact handleFeatures_el s f hl h
+              · intro h
+                rw [(idleHandle_nf s el hl (fun f hf' => hf ⟨f, hf'⟩)).1] at h
+                simp [EL, L3] at h
+            · intro h; exact absurd h (starttlsHandle_el s el hpre)
+            · rename_i hl; exact absurd (by rw [hl]; exact Or.inr (Or.inl rfl)) hpre
+            · rename_i hl; exact absurd (by rw [hl]; exact Or.inr (Or.inr rfl)) hpre
+            · intro h; exact absurd h (saslHandle_el s _ _ el hpre)
+            · intro h; rw [reject_listener] at h; exact absurd h hpre
+            · intro h; exact absurd h (sasl2Handle_el s _ _ el hpre)
+            · intro h; rw [reject_listener] at h; exact absurd h hpre
+            · rename_i hl; exact absurd (by rw [hl]; exact Or.inl (Or.inr (Or.inr rfl))) hpre
+            · rename_i hl; exact absurd (by rw [hl]; exact Or.inl (Or.inr (Or.inl rfl))) hpre
+            · rename_i hl; exact absurd (by rw [hl]; exact Or.inl (Or.inl rfl)) hpre
+
+theorem nC_saslHandle (s : St) (m : Used) (fr : Bool) (e : El) : nC (saslHandle s m fr e).2 = 0 := by
+  unfold saslHandle; cnt_crush
+theorem nC_nonSaslHandle (s : St) (e : El) : nC (nonSaslHandle s e).2 = 0 := by
+  unfold nonSaslHandle; cnt_crush
+
+/-- a SASL2 success opens the session only when it carries `<resumed/>` -/
+theorem sasl2Handle_opens_only_resumed (s : St) (m : Used) (fr : Bool) (e : El) (h : nC (sasl2Handle s m fr e).2 ≠ 0) :
+    ∃ b tok p, e = .s2Success b .resumed tok p := by
+  revert h
+  unfold sasl2Handle
+  split
+  · split <;> simp
+  · rename_i b r tok proof
+    split
+    case isFalse => simp
+    by_cases hr : r = .resumed
+    · subst hr; intro _; exact ⟨b, tok, proof, rfl⟩
+    · dsimp only
+      simp [hr]
+      split <;> simp
+  · simp
+  · simp
+  · simp
+
+/-- **Where a session can be opened from** (any state, any event): by the idle listener on a features element, by one of
+the `EL` listeners, or by a SASL2 success that carries `<resumed/>` (the stated exception: an inline-resumed session keeps the
+features of the session it resumes). -/
+theorem session_opened_from (s : St) (e : Ev) (h : nC (step s e).2 ≠ 0) :
+    (∃ f, e = .recv (.features f) ∧ s.listener = .idle) ∨ EL s.listener ∨
+    (∃ b tok p, e = .recv (.s2Success b .resumed tok p)) := by
+  cases e with
+  | connectToServer => exfalso; apply h; simp only [step]; split <;> simp
+  | socketConnected => exfalso; apply h; simp only [step]; split <;> simp
+  | socketError => exfalso; apply h; simp [step]
+  | socketDisconnected => exfalso; apply h; simp only [step]; cnt_crush
+  | sendIq => exfalso; apply h; simp only [step, sendIq]; cnt_crush
+  | recv el =>
+    revert h
+    simp only [step]
+    unfold recv
+    split
+    · simp
+    · split
+      · simp
+      · split
+        · simp
+        · split
+          · simp
+          · unfold dispatch
+            split
+            · rename_i hl
+              by_cases hf : ∃ f, el = .features f
+              · obtain ⟨f, rfl⟩ := hf
+                intro _; exact Or.inl ⟨f, rfl, hl⟩
+              · intro h
+                exact absurd (idleHandle_nf s el hl (fun f hf' => hf ⟨f, hf'⟩)).2 h
+            · intro h; exact absurd (nC_starttlsHandle s el) h
+            · rename_i hl; intro _; exact Or.inr (Or.inl (by rw [hl]; exact Or.inr (Or.inl rfl)))
+            · rename_i hl; intro _; exact Or.inr (Or.inl (by rw [hl]; exact Or.inr (Or.inr rfl)))
+            · intro h; exact absurd (nC_saslHandle s _ _ el) h
+            · simp
+            · intro h
+              obtain ⟨b, tok, p, rfl⟩ := sasl2Handle_opens_only_resumed s _ _ el h
+              exact Or.inr (Or.inr ⟨b, tok, p, rfl⟩)
+            · simp
+            · rename_i hl; intro _; exact Or.inr (Or.inl (by rw [hl]; exact Or.inl (Or.inr (Or.inr rfl))))
+            · rename_i hl; intro _; exact Or.inr (Or.inl (by rw [hl]; exact Or.inl (Or.inr (Or.inl rfl))))
+            · rename_i hl; intro _; exact Or.inr (Or.inl (by rw [hl]; exact Or.inl (Or.inl rfl)))
+
 end Qx.C10
